@@ -7,5 +7,6 @@ CONSTANTS
   MaxLen = 2
   DedupKeys = FALSE
   AssembleByArrival = TRUE
+  FoldUnsynchronised = FALSE
 INVARIANTS EqualsReference StoreIsReference ChildAtOwner
 CHECK_DEADLOCK FALSE
